@@ -62,7 +62,12 @@
                                   the transaction controller's phase scans (woken by the proposal events: record-local,
                                       C09_writes_wake_owners) and
                                   (c) a proposal waiting for Committed / Applied.Index = PrevIndex (token: the predecessor's
-                                      requeue_next, or the walk back from Proposed.Index / first_unapplied);
+                                      requeue_next, or the walk back from Proposed.Index / first_unapplied) - the VALIDATE
+                                      half of it (Committed.Index = PrevIndex) is now PROVED for every queued world:
+                                      C09_wait_c_has_token at the end of this file (Proofs/P2_QueueWaitC{,2,3}.v), with the
+                                      guardian it needs (the predecessor is in Abort IN_PROGRESS, and its Applied.Index is not
+                                      yet on its own PrevIndex or the predecessor itself is pending); the Abort IN_PROGRESS
+                                      and Apply waits on the cursors are still open;
                                   (d) a proposal in APPLYING waiting for master / term / synchronisation / connection
                                       (token: cfg_wakes first_unapplied);
                                   and an environment hypothesis: no foreign CONTROLS relation and no target removed while its
@@ -188,3 +193,38 @@ Print Assumptions C09_fixpoint_partial2.
 Print Assumptions C09_terminates_partial.
 Print Assumptions C09_rank_bounds.
 Print Assumptions C09_busy_wait_refuted.
+
+(* wait (c), Validate: PROVED for every reachable queued world.  A stored proposal (t, i) in Validate IN_PROGRESS (no later
+   phase started) whose PrevIndex is set and equals Committed.Index of its target - its validate guard is open - is pending,
+   or it is guarded: its predecessor (t, PrevIndex) is stored in Abort IN_PROGRESS (apply phase not started) and either
+   Applied.Index of the target is not yet the predecessor's PrevIndex (the abort moved only Committed.Index and returned
+   without re-queueing its successor; it will finish, and then return Requeue{(t, i)}, when ITS predecessor re-queues it)
+   or the predecessor itself is pending.  No enabledness premise is needed: a delivery at the open guard writes the
+   proposal's record or fails, and a failure re-enters the same id. *)
+From OC Require Import Proofs.P2_QueueWaitC2 Proofs.P2_QueueWaitC3.
+
+Section C09c.
+  Context {V Ch Req D : Type}.
+  Context (candidate : V -> Ch -> V) (candidate_rb : V -> Ch -> V) (rollback_of : V -> Ch -> Ch)
+          (overlay : V -> V -> V) (commit_merge : N -> N -> V -> V -> Ch -> V)
+          (payload : N -> V -> Ch -> option Req) (record_applied : N -> N -> V -> V -> V -> Ch -> V)
+          (touched : N -> V -> Ch -> V) (restore : V -> V -> V)
+          (resync_payload : V -> list (option Req)) (doc_ok : V -> bool)
+          (dev_apply : D -> Req -> D) (stamp : N -> Ch -> Ch) (v_empty : V) (d_empty : D) (ch_empty : Ch).
+  Notation qreach := (@qreach V Ch Req D candidate candidate_rb rollback_of overlay commit_merge payload record_applied
+                                 touched restore resync_payload doc_ok dev_apply stamp v_empty d_empty ch_empty).
+
+  Theorem C09_wait_c_has_token : forall (s : @qworld V Ch Req D), qreach s ->
+    forall t i (P : @prop Ch), props (qw s) !! (t, i) = Some P ->
+      p_apply P = None /\ p_abort P = None /\ p_commit P = None /\ p_validate P = Some Doing ->
+      p_prev P <> 0 ->
+      match cfgs (qw s) !! t with Some C => c_committed C | None => 0 end = p_prev P ->
+      In (CtlProp (t, i)) (queue s) \/
+      exists Q : @prop Ch, props (qw s) !! (t, p_prev P) = Some Q /\
+        (p_apply Q = None /\ p_abort Q = Some Doing) /\
+        (match cfgs (qw s) !! t with Some C => c_applied C | None => 0 end <> p_prev Q \/
+         In (CtlProp (t, p_prev P)) (queue s)).
+  Proof. exact (wait_c_reach candidate candidate_rb rollback_of overlay commit_merge payload record_applied touched restore
+                  resync_payload doc_ok dev_apply stamp v_empty d_empty ch_empty). Qed.
+End C09c.
+Print Assumptions C09_wait_c_has_token.
